@@ -338,7 +338,7 @@ theorem C05_flat_roundtrip (orc : Oracle) (pe : PEnv) (c c0 : Cfg)
   let f0 : Frame := { cfg := c1 }
   let m0 : PM := startPM c1 (cfgPrint c) 0
   have hat0 : AtItem f0 := ⟨rfl, rfl, by intro r o hr _; simp [f0] at hr⟩
-  obtain ⟨f', done, e1, hat', hlev', _hbk', hopts', hfl', hpf', hvals, hdecl⟩ :=
+  obtain ⟨f', done, e1, hat', hlev', _hbk', _hot', hopts', hfl', hpf', hvals, hdecl⟩ :=
     flat_steps orc c.opts c0.opts ts m0 f0 [] [] hft hal rfl rfl hat0 hopts1
       (by intro p hp; simp at hp) (by rw [hfl1]; exact hpw)
   have hnp := flatToks_no_rparen hft
